@@ -119,18 +119,20 @@ func diameterOf(g gm.G) float64 {
 }
 
 type seqRef struct {
-	fs   []gm.F
-	ring bool
+	fs    []gm.F
+	ring  bool
+	shell int // rings: index (in the list) of the exterior ring of the same polygon; -1 for lines
 }
 
 func lineSeqs(g gm.G) []seqRef {
 	var out []seqRef
 	g.Norm().Walk(func(n gm.G) {
 		if n.T == gm.LineString && len(n.Co) > 0 {
-			out = append(out, seqRef{n.Co, false})
+			out = append(out, seqRef{n.Co, false, -1})
 		}
+		shell := len(out)
 		for _, r := range n.Rings {
-			out = append(out, seqRef{r, true})
+			out = append(out, seqRef{r, true, shell})
 		}
 	})
 	return out
@@ -277,6 +279,9 @@ func c17Simplify(model gm.G, g geom.Geometry, thr float64) *h.Failure {
 	for i, sq := range in {
 		if used[i] || !sq.ring {
 			continue
+		}
+		if sq.shell != i && !used[sq.shell] {
+			continue // a hole of a polygon whose exterior ring went: the polygon is gone (the exterior ring itself is judged)
 		}
 		n := len(sq.fs) / d
 		collapsible := false
